@@ -95,10 +95,12 @@ type Node struct {
 	st   *store.Store
 
 	applyDelay atomic.Int64 // nanoseconds slept before each applied write command
+	busy       atomic.Bool  // an asynchronous delivery round is in progress
 }
 
 // Cluster is a running in-process cluster.
 type Cluster struct {
+	async atomic.Bool
 	opt   Options
 	Nodes []*Node
 	net   *Net
@@ -310,19 +312,36 @@ func (c *Cluster) pump() {
 		default:
 		}
 		for _, n := range c.Nodes {
+			if n.busy.Load() {
+				continue // an asynchronous delivery to this store is still running
+			}
 			if !n.gate.TryRLock() {
 				continue
 			}
 			msgs := c.net.due(n.Idx)
-			if !n.down {
-				for _, m := range msgs {
-					_ = n.st.Step(m)
+			tick := step%int64(c.opt.TickEvery) == 0
+			deliver := func(n *Node) {
+				if !n.down {
+					for _, m := range msgs {
+						_ = n.st.Step(m)
+					}
+					if tick {
+						_ = n.st.Router().BroadcastTick()
+					}
 				}
-				if step%int64(c.opt.TickEvery) == 0 {
-					_ = n.st.Router().BroadcastTick()
-				}
+				n.gate.RUnlock()
 			}
-			n.gate.RUnlock()
+			if c.async.Load() {
+				// stores run side by side (as with the real per-connection transport): a store
+				// that is busy applying does not hold the others back, its messages queue up
+				n.busy.Store(true)
+				go func(n *Node) {
+					defer n.busy.Store(false)
+					deliver(n)
+				}(n)
+				continue
+			}
+			deliver(n)
 		}
 		time.Sleep(c.opt.StepSleep)
 	}
@@ -523,6 +542,11 @@ func (c *Cluster) Isolate(idx int) { c.net.heal(); c.net.isolate(idx) }
 
 // Cut cuts the directed link a -> b (healing any earlier partition first).
 func (c *Cluster) Cut(a, b int) { c.net.heal(); c.net.cut(a, b, true) }
+
+// SetAsyncDelivery switches the pump between lock-step delivery (every store finishes its round
+// before the next store is served) and side-by-side delivery (a store that is still busy with
+// its round is skipped; the others go on).
+func (c *Cluster) SetAsyncDelivery(v bool) { c.async.Store(v) }
 
 // SetApplyDelay makes store idx sleep d before applying each write command.
 func (c *Cluster) SetApplyDelay(idx int, d time.Duration) { c.Nodes[idx].applyDelay.Store(int64(d)) }
